@@ -165,4 +165,41 @@ REG = {
         "assumptions": ["verifier-side transcripts only (the prover interleaves the same observes with heavy computation; prover/verifier agreement is what the existing end-to-end tests establish)",
                         "recursive (in-circuit) challengers and compressed-proof get_challenges are outside"],
     },
+    "C09": {
+        "families": [("S", "stark", None, r"^C09\.")],
+        "explanation": (
+            "Bounded symbolic verification of mechanisms (DESIGN.md section 5, C09) on sample STARK definitions written in "
+            "the harness (Fibonacci with public inputs, a degree-3 STARK with first/last-row constraints, a lookup STARK): "
+            "ConstraintConsumer accumulators == sum alpha^k filter_k c_k for every call sequence up to length 4; "
+            "eval_l_0_and_l_last == Lagrange definition (log_n 0..5, symbolic x); eval_vanishing_poly == reference "
+            "constraint list; row semantics on the real subgroup (satisfying trace gives 0 on every row, every single-cell "
+            "and public-input perturbation is caught, the wrap-around exemption is respected); the real "
+            "verify_stark_proof_with_challenges in accept-path mode: its vanishing stage is equivalent to the reference "
+            "identity for every challenge index and pins every opening / public input / quotient chunk; FRI "
+            "representatives pinned under the ideal-hash model. Native replay with the real starky prover."),
+        "trusted_base": TB_COMMON + ["sample STARK definitions and reference expressions in symf/src/stark.rs (oracles)"],
+        "assumptions": ["the STARK prover (compute_quotient_polys) and large traces are outside; probabilistic soundness is not re-proved"],
+    },
+    "C10": {
+        "families": [("S", "stark", None, r"^C10\.")],
+        "explanation": (
+            "Bounded symbolic verification of mechanisms (DESIGN.md section 5, C10): eval_packed_lookups_generic and "
+            "eval_cross_table_lookup_checks equal reference LogUp / CTL constraint lists on symbolic frames; the prover's "
+            "lookup_helper_columns and cross_table_lookup_data outputs satisfy them on every row of small traces (symbolic "
+            "cells, symbolic challenge); a looking value / tuple absent from the table gives a non-zero final sum "
+            "(polynomial identity); verify_cross_table_lookups in accept-path mode is sound, complete and pins every input."),
+        "trusted_base": TB_COMMON + ["sample STARK / CTL definitions and reference constraint lists in symf/src/stark.rs (oracles)"],
+        "assumptions": ["multi-table prover/verifier plumbing (CtlCheckVars::from_proof, get_ctl_data) is outside"],
+    },
+    "C11": {
+        "families": [("S", "stark", None, r"^C11\.")],
+        "explanation": (
+            "Bounded symbolic verification, ARITHMETIC SLICE ONLY (DESIGN.md section 5, C11): the in-circuit twins "
+            "(RecursiveConstraintConsumer, eval_l_0_and_l_last_circuit, eval_vanishing_poly_circuit, each sample STARK's "
+            "eval_ext_circuit, eval_ext_lookups_circuit, eval_cross_table_lookup_checks_circuit) are built with the real "
+            "CircuitBuilder, their witness generated by the real generate_partial_witness from symbolic inputs, and the "
+            "resulting values equal the native evaluators' for all inputs."),
+        "trusted_base": TB_COMMON,
+        "assumptions": ["NOT covered: in-circuit hashing, Merkle verification, the recursive challenger, proof-of-work check, variable-degree-bits logic, witness-assignment routines, any outer prove/verify - a check omitted only in those parts of the circuit verifier is missed"],
+    },
 }
